@@ -20,6 +20,7 @@
   measurement from the start of the text would report (C03).
 -/
 import TephraProofs.Nav
+import TephraProofs.NavColumns
 import TephraModel.Fam.Nav
 
 namespace Tephra.Props
@@ -210,5 +211,46 @@ example :
   all_goals
     simp [navSpec, canon, canonFrom, linesOf, breakAt, breakBefore, lbCodes, lbLen, stripCodes,
       colWidth, bytes, Pos.zero, firstUnit, lastUnit, curLinePre, curLineSuf]
+
+/-- `SourceText::iter_columns` (the loop `next_position`, `next_position`, … that yields, for each
+step, the text slice stepped over and the position reached).  Started at the canonical position of
+an aligned cut `pre ++ suf` of a well-formed text, for every number `n` of items requested: the
+loop never panics (every `next_position` call succeeds and every slice `text[s.byte..e.byte]` has
+`s.byte ≤ e.byte`), and its first `n` items are exactly the first `n` column steps of the suffix as
+the specification sees them (`Fam.Nav.specColumns`): one step per character, except that under CRLF
+a CR immediately followed by LF is one single step of two characters; the byte length reported for
+a step is the byte length of those characters, and the position reported after a step is the
+canonical position `canon m (pre ++ consumed)` of the offset reached, i.e. what forward measurement
+from the start of the text gives.  The loop ends (fewer than `n` items) exactly at the end of the
+text.  Hypotheses: the text is well-formed, `1 ≤ tab` (trusted-base assumption, not used by the
+proof), and the starting cut is aligned (not between the CR and LF of a CRLF ending). -/
+theorem C19_iter_columns (_htab : 1 ≤ m.tab) (hwf : Text.WF (pre ++ suf))
+    (hal : aligned m pre suf = true) (n : Nat) :
+    Fam.Nav.iterColumns m (pre ++ suf) n (canon m pre) = .ok (Fam.Nav.specColumns m pre n suf) :=
+  iterColumns_cut n hwf hal
+
+/-- Non-vacuity for `C19_iter_columns`: CRLF text `"a\r\nb⇥"` (tab width 4) from position zero.
+The hypotheses hold, and the specified (hence the computed) steps are not trivial: 1 byte to
+(1,0,1), the whole CRLF in one step of 2 bytes to (3,1,0), 1 byte to (4,1,1), and the tab, 1 byte,
+to the next tab stop (5,1,4); then the loop stops although 12 items were requested. -/
+example :
+    let m : Metrics := ⟨.crlf, 4⟩
+    let t : Text := [⟨97, 1, 1⟩, ⟨13, 1, 0⟩, ⟨10, 1, 0⟩, ⟨98, 1, 1⟩, ⟨9, 1, 0⟩]
+    1 ≤ m.tab ∧ Text.WF ([] ++ t) ∧ aligned m [] t = true ∧ canon m [] = Pos.zero ∧
+      Fam.Nav.specColumns m [] 12 t
+        = [(1, ⟨1, 0, 1⟩), (2, ⟨3, 1, 0⟩), (1, ⟨4, 1, 1⟩), (1, ⟨5, 1, 4⟩)] ∧
+      Fam.Nav.iterColumns m t 12 Pos.zero
+        = .ok [(1, ⟨1, 0, 1⟩), (2, ⟨3, 1, 0⟩), (1, ⟨4, 1, 1⟩), (1, ⟨5, 1, 4⟩)] := by
+  intro m t
+  have hwf : Text.WF ([] ++ t) := by
+    intro c hc; simp [t] at hc; rcases hc with rfl | rfl | rfl | rfl | rfl <;> decide
+  have hspec : Fam.Nav.specColumns m [] 12 t
+      = [(1, ⟨1, 0, 1⟩), (2, ⟨3, 1, 0⟩), (1, ⟨4, 1, 1⟩), (1, ⟨5, 1, 4⟩)] := by
+    simp [m, t, Fam.Nav.specColumns, canon, canonFrom, linesOf, breakAt, lbCodes, stripCodes,
+      colWidth, bytes, Pos.zero]
+  refine ⟨by decide, hwf, by decide, by simp, hspec, ?_⟩
+  have := C19_iter_columns (m := m) (pre := []) (suf := t) (by decide) hwf (by decide) 12
+  rw [hspec] at this
+  simpa using this
 
 end Tephra.Props
